@@ -84,3 +84,50 @@ def lattice_envs(axes, rng, count, extra=None, tie=None, fixed=None):
             tie(env, rng)
         envs.append(env)
     return envs
+
+
+def o_get_correct_format(ctx):
+    """get_correct_format (summarised in the shape rules): a 3-vector comes back component by component as integers, whatever the
+    reference box; no value -> half the reference box"""
+    q = "cryomask.get_correct_format"
+    m, fn = ctx.prog.func(q)
+    ctx.touched(q)
+    V = Arr([sym("v0"), sym("v1"), sym("v2")], 1)
+    REF = Arr([sym("n0"), sym("n1"), sym("n2")], 1)
+    cases = (("centre / radii given, with the box as reference", [V, REF], [mk("int", sym(f"v{k}")) for k in range(3)]),
+             ("value given without reference", [V], [mk("int", sym(f"v{k}")) for k in range(3)]),
+             ("no value: half of the reference box", [K(None), REF], [mk("floordiv", mk("int", sym(f"n{k}")), const(2)) for k in range(3)]))
+    sam = {f"v{k}": int_sampler(0, 60) for k in range(3)}
+    sam.update({f"n{k}": int_sampler(4, 48) for k in range(3)})
+    for label, args, want in cases:
+        r = Interp(ctx.prog).run(q, list(args), {})
+        a = r.ret if isinstance(r.ret, Arr) else None
+        if a is None or len(a.cols) != 3:
+            raise Unsupported(f"get_correct_format ({label}) does not return a 3-vector", fn)
+        for k in range(3):
+            v = tm.equivalent(a.cols[k], want[k], samplers=sam, n=30, seed_tag=q + label + str(k))
+            ctx.count(1, {"case": label, "component": k, "equal": bool(v)} if k == 0 else None)
+            if not v:
+                ctx.finding(q, f"{label}: component {k}", f"get_correct_format ({label}): component {k} must be {tm.show(want[k])} -- the centre and the "
+                            "radii of a shape are taken as given, per axis (a non-cubic box has three different extents)", fn, m,
+                            witness=v.witness, extracted=tm.show(a.cols[k])[:120])
+
+
+
+def o_preprocess_params(ctx):
+    """preprocess_params(radius, gaussian, gaussian_outwards): the radius is enlarged only for an outward blur"""
+    q = "cryomask.preprocess_params"
+    m, fn = ctx.prog.func(q)
+    ctx.touched(q)
+    sam = {"r": lambda g: float(g.choice([1, 2, 3, 5, 8, 13, 20, 2.5, 7.5])), "sigma": lambda g: float(g.choice([0.5, 1.0, 2.0, 3.0, 4.0, 6.0]))}
+    grown = T("ceil", mk("add", sym("r"), mk("mul", sym("sigma"), const(5.0))))
+    for outw, gauss, want, label in ((False, P("sigma"), sym("r"), "blur not outwards: radius unchanged (also when the radius is smaller than sigma)"),
+                                     (True, P("sigma"), grown, "blur outwards: ceil(radius + 5 sigma)"),
+                                     (True, K(0.0), sym("r"), "no blur: radius unchanged"),
+                                     (False, K(0.0), sym("r"), "no blur: radius unchanged")):
+        r = Interp(ctx.prog).run(q, [P("r"), gauss, K(outw)], {})
+        got = to_term(r.ret)
+        v = tm.equivalent(got, want, samplers=sam, n=40, seed_tag=q + label + str(outw))
+        ctx.count(1, {"case": label, "extracted": tm.show(got)[:100], "equal": bool(v)})
+        if not v:
+            ctx.finding(q, label, f"preprocess_params, {label}: the code yields {tm.show(got)[:120]}", fn, m, witness=v.witness)
